@@ -862,6 +862,8 @@ def scenario_network(rng, name, variant=0):
                  _junc("J0", 5.0, rng.choice([0.0, 0.0, 0.0002]))]
         links = [_pipe("P1", "R0", "J0", L=_r(rng, 50, 150, 0), d=rng.choice([0.3, 0.4]), cv=True), _pipe("P2", "J0", "R1", L=100.0, d=0.3)]
     elif name == "cv_reverse":
+        # the reservoir's head pattern runs on a NON-ZERO pattern_start on every seed (reported head = head the solve used)
+        opts["pattern_start"] = opts["pattern_timestep"] * (1 + variant % 2)
         pats["hp"] = [1.0, _r(rng, 0.5, 0.8, 2), _r(rng, 1.1, 1.3, 2), 1.0]
         nodes = [{"name": "R0", "type": "reservoir", "head": 60.0, "head_pattern": "hp"},
                  {"name": "R1", "type": "reservoir", "head": 58.0, "head_pattern": None},
